@@ -157,6 +157,12 @@ def replay(d):
 def check(run):
     run.level = "other"
     PC.deductive(run)
+    # the selection step under its own contract (record view of the condition rows): maximality for every number of
+    # conditions and every length; the row-view contract used at the call site in MCSSearch.find (results are records
+    # taken from the arguments) is the first conjunct of what is proved here
+    run.deductive(["contracts.mcs_select"])
+    run.assume("ExtractMCS.get_largest_condition is verified in the record view of contracts/mcs_select.py; MCSSearch.find uses the weaker row-view "
+               "contract 'every result is one of the argument records', which is the first conjunct of the proved postcondition")
     rnd = random.Random(run.seed)
     # selection step: exhaustive over small tables of the three search conditions
     fails, cases = [], 0
